@@ -24,12 +24,13 @@ var c03Weights = []string{
 	"plbl", "plbl", "prul",
 	"wep", "wep", "wep", "hep", "hep",
 	"del", "del", "del", "redeliver",
+	"tdel", "tdel", "restore", "restore", "restore", "eprof", "eprof", "eprof",
 }
 
 func TestVerifC03PolicyMatchOrder(t *testing.T) {
 	ev.Quiet()
 	rec := ev.New("C03", "calc",
-		"rapid-generated histories over a small universe (3 tiers incl. default, 3-6 policy keys over 2-3 names x 6 kinds x 2 namespaces, 3 profiles, 2 local + 1 remote workload endpoint, 1 local + 1 remote host endpoint): a bootstrap batch of sets followed by 1-14 steps of set/move/delete/redeliver in batches of 1-3 updates with flushes and the in-sync status at drawn positions; checked after every flush. Non-trivial = at some checked flush a local endpoint had >=2 applicable policies tying on order in one tier, or an own label overriding a different inherited value, or >=2 applicable existing tiers one of which has no order. Distinct = distinct op-kind sequence + classes hit",
+		"rapid-generated histories over a small universe (3 tiers incl. default, 3-6 policy keys over 2-3 names x 6 kinds x 2 namespaces, 3 profiles, 2 local + 1 remote workload endpoint, 1 local + 1 remote host endpoint): a bootstrap batch of sets followed by 1-14 steps of set / policy move / delete / tier delete / restore-a-deleted-key-unchanged / endpoint profile-list-only update (repeats, drops, permutations of listed IDs) / same-revision redelivery in batches of 1-3 updates with flushes and the in-sync status at drawn positions; checked after every flush. Non-trivial = at some checked flush a local endpoint had >=2 applicable policies tying on order in one tier, or an own label overriding a different inherited value, or >=2 applicable existing tiers one of which has no order. Distinct = distinct op-kind sequence + classes hit",
 		"selector semantics are those of libcalico-go/lib/selector Parse+Evaluate (trusted)",
 		"profiles of one endpoint never apply different values for the same label (undocumented precedence; not generated)",
 		"policies whose Tier resource is absent are constrained in membership and in-tier order only, not in tier position",
@@ -73,6 +74,10 @@ func TestVerifC03PolicyMatchOrder(t *testing.T) {
 		// Bootstrap: a few sets so that most cases start from a populated datastore.
 		nBoot := rapid.IntRange(0, 16).Draw(t, "numBootstrapSets")
 		bootWeights := []string{"pol", "pol", "pol", "pol", "pol", "tier", "tier", "tier", "plbl", "plbl", "plbl", "wep", "wep", "wep", "hep", "hep", "prul"}
+		if rapid.Bool().Draw(t, "bootstrapAllTiers") {
+			as, _ := h.genBatch(3, []string{"tier3"}, 0)
+			g.send(as)
+		}
 		for nBoot > 0 {
 			n := rapid.IntRange(1, nBoot).Draw(t, "bootBatchSize")
 			as, _ := h.genBatch(n, bootWeights, 0)
@@ -84,6 +89,21 @@ func TestVerifC03PolicyMatchOrder(t *testing.T) {
 		}
 
 		for i := 1; i <= nSteps; i++ {
+			if rapid.IntRange(0, 6).Draw(t, "tierBounce") == 0 {
+				// A tier disappears while its policies stay, the result is flushed, then the tier
+				// comes back exactly as it was.
+				as, _ := h.genBatch(1, []string{"tdel"}, 0)
+				g.send(as)
+				flushAndCheck()
+				as, _ = h.genBatch(1, []string{"trestore"}, 0)
+				g.send(as)
+				flushAndCheck()
+				h.classes["tier-bounce-with-flushes"] = true
+				if i == syncAt {
+					inSync()
+				}
+				continue
+			}
 			n := rapid.IntRange(1, 3).Draw(t, "batchSize")
 			as, _ := h.genBatch(n, c03Weights, 0)
 			g.send(as)
@@ -100,6 +120,9 @@ func TestVerifC03PolicyMatchOrder(t *testing.T) {
 		nontrivial := stats.classes["order-tie"] || stats.classes["label-override"] || stats.classes["nil-tier-order"]
 		classes := make([]string, 0, len(stats.classes))
 		for c := range stats.classes {
+			classes = append(classes, c)
+		}
+		for c := range h.classes {
 			classes = append(classes, c)
 		}
 		shape := strings.Join(h.kinds, "") + "|" + c03SortedJoin(classes)
